@@ -20,7 +20,9 @@ pub struct TraceEntry
 {
     pub op_index: usize,
     pub snapshot: Snapshot,
-    pub cstate: Vec<u64>
+    pub cstate: Vec<u64>,
+    /// the random draws made while executing this operation (empty unless `draws_start()` was called)
+    pub draws: Vec<Draw>
 }
 
 thread_local!
@@ -47,7 +49,51 @@ pub(crate) fn trace_push<Q: crate::qustate::QuState>(op_index: usize, q_state: &
         if let Some(v) = t.borrow_mut().as_mut()
         {
             v.push(TraceEntry { op_index: op_index, snapshot: q_state.verif_snapshot(),
-                cstate: cstate.to_vec() });
+                cstate: cstate.to_vec(), draws: draws_drain() });
+        }
+    });
+}
+
+/// A random draw made by a simulation state
+#[derive(Clone, Debug)]
+pub enum Draw
+{
+    /// `n0` drawn from Binomial(`count`, `p`)
+    Binomial { count: usize, p: f64, n0: usize },
+    /// `count` indices drawn from WeightedIndex(`weights`), collected as (index, multiplicity)
+    /// in the iteration order of the implementation's hash map
+    Categorical { count: usize, weights: Vec<f64>, result: Vec<(usize, usize)> }
+}
+
+thread_local!
+{
+    static DRAWS: ::std::cell::RefCell<Option<Vec<Draw>>> = ::std::cell::RefCell::new(None);
+}
+
+/// Start recording random draws on this thread.
+pub fn draws_start()
+{
+    DRAWS.with(|t| *t.borrow_mut() = Some(vec![]));
+}
+
+/// Stop recording and return the draws recorded on this thread (also drains them).
+pub fn draws_take() -> Vec<Draw>
+{
+    DRAWS.with(|t| t.borrow_mut().take().unwrap_or_default())
+}
+
+/// Return the draws recorded so far and keep recording.
+pub fn draws_drain() -> Vec<Draw>
+{
+    DRAWS.with(|t| match t.borrow_mut().as_mut() { Some(v) => v.drain(..).collect(), None => vec![] })
+}
+
+pub(crate) fn log_draw(d: Draw)
+{
+    DRAWS.with(|t| {
+        if let Some(v) = t.borrow_mut().as_mut()
+        {
+            v.push(d);
         }
     });
 }
